@@ -427,6 +427,9 @@ func runC14(c *ctx) {
 		names := c14Names
 		if c.r.chance(1, 4) {
 			names = []string{"a", "b", "ab", "c", "bc", ""}
+		} else if c.r.chance(1, 4) {
+			// member names the format reserves elsewhere are free for types, attributes and relationships
+			names = []string{"a", "b", "id", "type", "links", ""}
 		}
 		var ops []c14Op
 		// start with a few types so that later edits have targets
